@@ -234,7 +234,7 @@ def run(chk):
     chk.assumptions = ["stream->clock_offset = 0 (no clock offset table in the trace directory)",
                        "a stream file is smaller than 2^63 bytes",
                        "theorems are about the repaired stream_step (patches/fix-c19-stream-bounds.diff); on a tree without it the translator unit loader_step fails closed"]
-    broken = common.translate(["loader", "loader_step", "footprint"])
+    broken = common.translate(["loader", "loader_step", "footprint", "stepper"])
     fixed_tree = not any("unit=loader_step" in b for b in broken)
     if broken:
         chk.proof_broken = {"kind": "translator", "messages": broken}
